@@ -7,6 +7,10 @@ class ElementVector(Element):
     """Use the same element for each dimension."""
 
     def __init__(self, elem, dim=None):
+        from .element_composite import ElementComposite
+        if isinstance(elem, ElementComposite):
+            # gbasis takes the single field of the wrapped element
+            raise NotImplementedError("ElementComposite not supported.")
         self.elem = elem
         self._dim = elem.dim if dim is None else dim
 
